@@ -7,7 +7,11 @@ in `PngVerif/Model/Transform.lean`).  Level: one row.  A transform is a function
 identity-decoded row and of the *prior content* of the output buffer; the theorems quantify over
 all well-formed metadata (`WellFormed`: legal colour type / bit depth pair, PLTE of whole entries
 and at most 256 of them, colour key of one stored sample per channel — what a valid PNG has), all
-8 flag sets, all widths, all rows of the raw row length and all prior buffer contents.  Whole
+8 flag sets, all widths, all rows of the raw row length and all prior buffer contents.  Since the
+repair of defect D1 (/repo commit c0a00c7) the conversion theorem also holds with a PLTE chunk of
+ANY length (`Decodable`, `C08_convert_any_palette`): the palette entries are then the whole 3-byte
+entries, at most 256 of them (`specPalette`).  The pinned-tree behaviour (`createRgbaPaletteOld`,
+`transformRowOld`) is kept for the record in the last section.  Whole
 images (frame / row path, interlacing) are row-by-row applications of the same function
 (`decoder/mod.rs:570-590`); that part is covered by the harness, not by a theorem.
 -/
@@ -30,6 +34,29 @@ theorem C08_convert (info : Info) (f : Flags) (width : Nat) (row out : Bytes)
     (hout : outputLineSize info f width = .ok out.length) :
     transformRow info f row out = .ok (specConvert info f row width) :=
   transformRow_eq_spec info f width row out hw hrow hout
+
+/-- **C08, conversion, for every PLTE length** (the statement that was false before the repair of
+    D1).  The metadata need only be `Decodable`: legal pair, an indexed image has *some* PLTE chunk
+    — of any length, not a multiple of 3, longer than 768 bytes, empty —, colour key of one stored
+    sample per channel.  The documented conversion reads a malformed PLTE chunk as its whole 3-byte
+    entries, at most 256 of them (`specPalette`, used by `specConvert`): a trailing partial entry and
+    entries beyond the 256th do not exist, indices beyond are opaque black, and a tRNS chunk longer
+    than that number of entries is ignored.  No error, no panic, exactly that conversion. -/
+theorem C08_convert_any_palette (info : Info) (f : Flags) (width : Nat) (row out : Bytes)
+    (hw : Decodable info)
+    (hrow : row.length = rawRowLengthFromWidth info.colorType info.bitDepth width - 1)
+    (hout : outputLineSize info f width = .ok out.length) :
+    transformRow info f row out = .ok (specConvert info f row width) :=
+  transformRow_eq_spec_decodable info f width row out hw hrow hout
+
+/-- the entries of a PLTE chunk: for a valid chunk (what `C08_convert` is about) the chunk itself;
+    in general `min (length / 3) 256` whole entries -/
+theorem palette_entries (plte : Bytes) :
+    (plte.length % 3 = 0 → plte.length ≤ 768 → specPalette plte = plte) ∧
+    (specPalette plte).length = min (plte.length / 3) 256 * 3 ∧
+    ∃ rest, plte = specPalette plte ++ rest :=
+  ⟨specPalette_of_guard plte, specPalette_length plte,
+   ⟨plte.drop (min (plte.length / 3) 256 * 3), by unfold specPalette; rw [List.take_append_drop]⟩⟩
 
 /-- the result does not depend on what the output buffer held before: every byte is written -/
 theorem C08_prior_content_irrelevant (info : Info) (f : Flags) (width : Nat) (row out₁ out₂ : Bytes)
@@ -75,6 +102,22 @@ theorem C08_sizes (info : Info) (f : Flags) (width : Nat) (row out : Bytes)
   · rw [hol, specRowBytes, hod]
   · rw [hol, specOutputLineSize]
 
+/-- the same for a PLTE chunk of any length -/
+theorem C08_sizes_any_palette (info : Info) (f : Flags) (width : Nat) (row out : Bytes)
+    (hw : Decodable info)
+    (hrow : row.length = rawRowLengthFromWidth info.colorType info.bitDepth width - 1)
+    (hout : outputLineSize info f width = .ok out.length) :
+    ∃ out' oc od, transformRow info f row out = .ok out' ∧ outputColorType info f = .ok (oc, od) ∧
+      out'.length = out.length ∧ out.length = specRowBytes oc od width ∧
+      out.length = specOutputLineSize info f width := by
+  obtain ⟨od, hoc, hod⟩ := outputColorType_eq info f
+  have hol := outLen info f width out hout
+  have hlen := specConvert_length info f width row (by rw [hrow, rawRowLength_eq]; rfl)
+  refine ⟨_, _, od, C08_convert_any_palette info f width row out hw hrow hout, hoc, ?_, ?_, ?_⟩
+  · rw [hlen, specOutputLineSize]; exact hol.symm
+  · rw [hol, specRowBytes, hod]
+  · rw [hol, specOutputLineSize]
+
 /-! ## Selection -/
 
 /-- **C08, selection.**  For a legal colour type / bit depth pair the `assert_eq!(bit_depth, 16)`
@@ -116,16 +159,32 @@ theorem unpack_bits_spec (bd : BitDepth) (hbd : bd ≠ .sixteen) (ch n : Nat) (h
 theorem bit_replication : ∀ d ∈ [1, 2, 4], ∀ v, v < 2 ^ d →
     v * (255 / (2 ^ d - 1)) = ((List.range (8 / d)).map fun k => v * 2 ^ (d * k)).sum := by decide
 
-/-- **memo palette = documented lookup**: for a PLTE of whole entries, at most 256 of them, and any
-    tRNS, `create_rgba_palette` does not panic and row `i` of its table is, for every index 0..255,
-    the palette entry (black beyond the palette) with the tRNS alpha (255 where tRNS has no entry,
-    and everywhere when tRNS is longer than the palette): the clobbered alphas are all repaired. -/
-theorem memo_palette_spec (pal : Bytes) (trns : Option Bytes)
+/-- **memo palette = documented lookup, for every PLTE and every tRNS**: `create_rgba_palette` does
+    not panic and row `i` of its table is, for every index 0..255, entry `i` of the usable palette
+    entries (black beyond them) with the tRNS alpha (255 where tRNS has no entry, and everywhere
+    when tRNS is longer than the palette): the clobbered alphas are all repaired. -/
+theorem memo_palette_spec (pal : Bytes) (trns : Option Bytes) :
+    ∃ memo, createRgbaPalette pal trns = .ok memo ∧ memo.length = 256 ∧
+      ∀ i, i < 256 → ∃ e, memo[i]? = some e ∧
+        e.rgbBytes.map (·.toNat) = specPaletteRgb (specPalette pal) i ∧
+        e.2.2.2.toNat = specPaletteAlpha (specPalette pal) trns i :=
+  createRgbaPalette_spec pal trns
+
+/-- the same for a valid PLTE (whole entries, at most 256), in terms of the chunk itself -/
+theorem memo_palette_spec_valid (pal : Bytes) (trns : Option Bytes)
     (h3 : pal.length % 3 = 0) (h768 : pal.length ≤ 768) :
     ∃ memo, createRgbaPalette pal trns = .ok memo ∧ memo.length = 256 ∧
       ∀ i, i < 256 → ∃ e, memo[i]? = some e ∧
-        e.rgbBytes.map (·.toNat) = specPaletteRgb pal i ∧ e.2.2.2.toNat = specPaletteAlpha pal trns i :=
-  createRgbaPalette_spec pal trns h3 h768
+        e.rgbBytes.map (·.toNat) = specPaletteRgb pal i ∧ e.2.2.2.toNat = specPaletteAlpha pal trns i := by
+  have := memo_palette_spec pal trns
+  rwa [specPalette_of_guard pal h3 h768] at this
+
+/-- **`create_rgba_palette` is total** (repaired code): for every PLTE and every tRNS it returns a
+    table of 256 rows — never a panic -/
+theorem create_rgba_palette_total (pal : Bytes) (trns : Option Bytes) :
+    (∃ memo, createRgbaPalette pal trns = .ok memo ∧ memo.length = 256) ∧
+    createRgbaPalette pal trns ≠ .error .panic :=
+  ⟨createRgbaPalette_total pal trns, createRgbaPalette_no_panic pal trns⟩
 
 /-- **overlapping 4-byte writes = plain 3-byte writes** in `expand_8bit_into_rgb8`, for every row
     and every prior buffer content -/
@@ -134,23 +193,25 @@ theorem overlapping_writes (memo : List Rgba) (hlen : memo.length = 256) (row ou
     expand8bitIntoRgb8 memo row out = .ok (row.flatMap fun i => (memoGet memo i).rgbBytes) :=
   expand8bitIntoRgb8_eq memo hlen row out hout
 
-/-- an index beyond the palette is opaque black (memo table, every index up to 255) -/
+/-- an index beyond the palette entries is opaque black (memo table, every index up to 255, every
+    PLTE length) -/
 theorem out_of_range_index_black (pal : Bytes) (trns : Option Bytes) (memo : List Rgba)
-    (h3 : pal.length % 3 = 0) (h768 : pal.length ≤ 768)
-    (hm : createRgbaPalette pal trns = .ok memo) (i : Nat) (hi : pal.length / 3 ≤ i) (h256 : i < 256) :
-    memo[i]? = some (0, 0, 0, 0xFF) := memo_out_of_range pal trns memo h3 h768 hm i hi h256
+    (hm : createRgbaPalette pal trns = .ok memo) (i : Nat) (hi : min (pal.length / 3) 256 ≤ i)
+    (h256 : i < 256) :
+    memo[i]? = some (0, 0, 0, 0xFF) := memo_out_of_range pal trns memo hm i hi h256
 
-/-- a tRNS chunk longer than the palette is ignored: memo table and whole conversion are those of
-    an empty tRNS chunk (an alpha channel is still produced, all opaque) -/
+/-- a tRNS chunk with more entries than the palette has (usable) entries is ignored: memo table and
+    whole conversion are those of an empty tRNS chunk (an alpha channel is still produced, all
+    opaque); for a valid PLTE `min (pal.length / 3) 256 = pal.length / 3` -/
 theorem trns_ignored_if_longer (info : Info) (f : Flags) (width : Nat) (row out : Bytes) (pal t : Bytes)
-    (hw : WellFormed info) (hct : info.colorType = .indexed) (hp : info.palette = some pal)
-    (ht : info.trns = some t) (hlong : pal.length / 3 < t.length)
+    (hw : Decodable info) (hct : info.colorType = .indexed) (hp : info.palette = some pal)
+    (ht : info.trns = some t) (hlong : min (pal.length / 3) 256 < t.length)
     (hrow : row.length = rawRowLengthFromWidth info.colorType info.bitDepth width - 1)
     (hout : outputLineSize info f width = .ok out.length) :
     createRgbaPalette pal (some t) = createRgbaPalette pal (some []) ∧
     transformRow info f row out = .ok (specConvert { info with trns := some [] } f row width) := by
   refine ⟨createRgbaPalette_trns_longer pal t hlong, ?_⟩
-  rw [C08_convert info f width row out hw hrow hout,
+  rw [C08_convert_any_palette info f width row out hw hrow hout,
     specConvert_trns_longer info f row width pal t hct hp ht hlong]
 
 /-- `parse_trns` keeps the sample values of a well-formed colour key (high bytes zero below 16 bits) -/
@@ -159,15 +220,9 @@ theorem trns_normalisation (d : BitDepth) (hd : d ≠ .sixteen) (l r g b : UInt8
     (∃ t, parseTrns .rgb d [0, r, 0, g, 0, b] = some t ∧ t.map (·.toNat) = be16 [0, r, 0, g, 0, b]) :=
   ⟨parseTrns_gray d hd l, parseTrns_rgb d hd r g b⟩
 
-/-! ## Defect D1: malformed PLTE lengths -/
+/-! ## Malformed PLTE lengths: repaired code, and defect D1 on the pinned tree -/
 
-/-- `create_rgba_palette` as it is panics **exactly** when the PLTE length is not a multiple of 3 or
-    exceeds 768 bytes — the two conditions `parse_plte` does not check (defect D1). -/
-theorem palette_panic_iff (pal : Bytes) (trns : Option Bytes) :
-    createRgbaPalette pal trns = .error .panic ↔ (pal.length % 3 ≠ 0 ∨ pal.length > 768) :=
-  createRgbaPalette_panic_iff pal trns
-
-/-- the conversion statement without the PLTE-length part of `WellFormed` (any PLTE present) -/
+/-- the conversion statement without any PLTE-length hypothesis (any PLTE present) -/
 def C08_unguarded_statement : Prop :=
   ∀ (info : Info) (f : Flags) (width : Nat) (row out : Bytes),
     legal info.colorType info.bitDepth = true →
@@ -178,8 +233,49 @@ def C08_unguarded_statement : Prop :=
     outputLineSize info f width = .ok out.length →
     ∃ out', transformRow info f row out = .ok out'
 
-/-- what holds of it: the excluded region is the decidable PLTE-length condition -/
-theorem C08_unguarded_partial (info : Info) (f : Flags) (width : Nat) (row out : Bytes)
+/-- it holds for the repaired code (it was false on the pinned tree: `C08_unguarded_counterexample`) -/
+theorem C08_unguarded : C08_unguarded_statement :=
+  fun info f width row out hl hp hk hrow hout =>
+    ⟨_, C08_convert_any_palette info f width row out ⟨hl, hp, hk⟩ hrow hout⟩
+
+/-- **pinned tree a1124db**: `create_rgba_palette` panicked **exactly** when the PLTE length is not a
+    multiple of 3 or exceeds 768 bytes — the two conditions `parse_plte` does not check (defect D1) -/
+theorem palette_panic_iff (pal : Bytes) (trns : Option Bytes) :
+    createRgbaPaletteOld pal trns = .error .panic ↔ (pal.length % 3 ≠ 0 ∨ pal.length > 768) :=
+  createRgbaPaletteOld_panic_iff pal trns
+
+/-- pinned tree, witnesses: PLTE of 1, 2, 4 and 771 bytes -/
+theorem palette_panic_witnesses :
+    createRgbaPaletteOld [1] none = .error .panic ∧
+    createRgbaPaletteOld [1, 2] none = .error .panic ∧
+    createRgbaPaletteOld [1, 2, 3, 4] none = .error .panic ∧
+    createRgbaPaletteOld (List.replicate 771 7) none = .error .panic := by
+  refine ⟨?_, ?_, ?_, ?_⟩
+  · exact (palette_panic_iff _ _).mpr (by simp)
+  · exact (palette_panic_iff _ _).mpr (by simp)
+  · exact (palette_panic_iff _ _).mpr (by simp)
+  · exact (palette_panic_iff _ _).mpr (Or.inr (by rw [List.length_replicate]; decide))
+
+/-- the repair changes nothing for a valid PLTE: pinned-tree and repaired row transform coincide
+    whenever the PLTE chunk (if any) has whole entries, at most 256 -/
+theorem repair_conservative (info : Info) (f : Flags) (row out : Bytes)
+    (hguard : ∀ p, info.palette = some p → p.length % 3 = 0 ∧ p.length ≤ 768) :
+    transformRowOld info f row out = transformRow info f row out :=
+  transformRowOld_eq info f row out hguard
+
+/-- the unguarded statement about the pinned-tree code -/
+def C08_unguarded_pinned_statement : Prop :=
+  ∀ (info : Info) (f : Flags) (width : Nat) (row out : Bytes),
+    legal info.colorType info.bitDepth = true →
+    (info.colorType = .indexed → info.palette.isSome = true) →
+    (∀ t, info.trns = some t → info.colorType = .gray ∨ info.colorType = .rgb →
+      t.length = info.colorType.samples * (if info.bitDepth = .sixteen then 2 else 1)) →
+    row.length = rawRowLengthFromWidth info.colorType info.bitDepth width - 1 →
+    outputLineSize info f width = .ok out.length →
+    ∃ out', transformRowOld info f row out = .ok out'
+
+/-- pinned tree, what held: the excluded region is the decidable PLTE-length condition -/
+theorem C08_unguarded_pinned_partial (info : Info) (f : Flags) (width : Nat) (row out : Bytes)
     (hl : legal info.colorType info.bitDepth = true)
     (hp : info.colorType = .indexed → info.palette.isSome = true)
     (hk : ∀ t, info.trns = some t → info.colorType = .gray ∨ info.colorType = .rgb →
@@ -187,34 +283,20 @@ theorem C08_unguarded_partial (info : Info) (f : Flags) (width : Nat) (row out :
     (hguard : ∀ p, info.palette = some p → p.length % 3 = 0 ∧ p.length ≤ 768)
     (hrow : row.length = rawRowLengthFromWidth info.colorType info.bitDepth width - 1)
     (hout : outputLineSize info f width = .ok out.length) :
-    ∃ out', transformRow info f row out = .ok out' := by
-  refine ⟨_, C08_convert info f width row out ⟨hl, ?_, hk⟩ hrow hout⟩
-  intro hc
-  cases hpal : info.palette with
-  | none => simp [hpal] at hp; exact absurd hc hp
-  | some p => exact ⟨p, rfl, hguard p hpal⟩
+    transformRowOld info f row out = .ok (specConvert info f row width) := by
+  rw [repair_conservative info f row out hguard]
+  exact C08_convert_any_palette info f width row out ⟨hl, hp, hk⟩ hrow hout
 
-/-- witnesses: PLTE of 1, 2, 4 and 771 bytes -/
-theorem palette_panic_witnesses :
-    createRgbaPalette [1] none = .error .panic ∧
-    createRgbaPalette [1, 2] none = .error .panic ∧
-    createRgbaPalette [1, 2, 3, 4] none = .error .panic ∧
-    createRgbaPalette (List.replicate 771 7) none = .error .panic := by
-  refine ⟨?_, ?_, ?_, ?_⟩
-  · exact (palette_panic_iff _ _).mpr (by simp)
-  · exact (palette_panic_iff _ _).mpr (by simp)
-  · exact (palette_panic_iff _ _).mpr (by simp)
-  · exact (palette_panic_iff _ _).mpr (Or.inr (by rw [List.length_replicate]; decide))
-
-/-- counterexample: a one-pixel 8-bit indexed row with a 4-byte PLTE under EXPAND panics -/
-theorem C08_unguarded_counterexample : ¬ C08_unguarded_statement := by
+/-- pinned tree, counterexample: a one-pixel 8-bit indexed row with a 4-byte PLTE under EXPAND
+    panicked -/
+theorem C08_unguarded_counterexample : ¬ C08_unguarded_pinned_statement := by
   intro h
   obtain ⟨out', ho⟩ := h ⟨.indexed, .eight, some [1, 2, 3, 4], none⟩ ⟨true, false, false⟩ 1 [0] [0, 0, 0]
     (by rfl) (by simp) (by simp) (by rfl) (by rfl)
-  have hp : transformRow ⟨.indexed, .eight, some [1, 2, 3, 4], none⟩ ⟨true, false, false⟩ [0] [0, 0, 0]
+  have hp : transformRowOld ⟨.indexed, .eight, some [1, 2, 3, 4], none⟩ ⟨true, false, false⟩ [0] [0, 0, 0]
       = .error .panic := by
     have := (palette_panic_iff [1, 2, 3, 4] none).mpr (by simp)
-    simp [transformRow, selectTransform, applyKind, this]
+    simp [transformRowOld, selectTransform, applyKindWith, this]
   rw [hp] at ho
   cases ho
 
@@ -245,6 +327,12 @@ example : transformRow ⟨.gray, .sixteen, none, some [0x12, 0x34]⟩ ⟨true, t
 -- 2-bit gray: bit replication 0, 85, 170, 255
 example : specConvert ⟨.gray, .two, none, none⟩ ⟨true, false, false⟩ [0b00011011] 4 = [0, 85, 170, 255] := by
   decide
+-- a malformed PLTE (4 bytes: one entry and a stray byte) is decodable; index 1 is out of range
+example : Decodable ⟨.indexed, .eight, some [1, 2, 3, 4], none⟩ := ⟨by rfl, fun _ => rfl, fun _ _ h => by simp at h⟩
+example : transformRow ⟨.indexed, .eight, some [1, 2, 3, 4], none⟩ ⟨true, false, false⟩ [0, 1]
+    (List.replicate 6 0x5a) = .ok [1, 2, 3, 0, 0, 0] := by decide +kernel
+example : transformRowOld ⟨.indexed, .eight, some [1, 2, 3, 4], none⟩ ⟨true, false, false⟩ [0, 1]
+    (List.replicate 6 0x5a) = .error .panic := by decide +kernel
 -- overlapping writes really overlap: 2 pixels, 6 output bytes
 example : expand8bitIntoRgb8 [(1, 2, 3, 4), (5, 6, 7, 8)] [0, 1] [0, 0, 0, 0, 0, 0] = .ok [1, 2, 3, 5, 6, 7] := by
   decide +kernel
